@@ -28,7 +28,7 @@ def chk(pid, engine, text, note, technique, design_ref):
 
 chk("C13", "pushsim",
     "Seeded deterministic simulation of one account's push ruleset edited by 1-3 devices over a lossy, duplicating, reordering transport with retries and server crash/restart through the JSON form; every applied operation on the real Ruleset is judged against an independent ordered-list model (no panic, error => unchanged, placement, uniqueness, outcome class). Sampling, not proof; plus an exhaustive walk of all operation sequences up to length 2 (quick) / 3 (thorough) over a small alphabet, reported separately.",
-    "Trusted: the rpush list model (DESIGN §5/A.9) as the meaning of the documented placement semantics; override-list placement without .m.rule.master first, self-anchored inserts and contradictory anchor pairs are judged only for panic-freedom, atomicity and uniqueness.",
+    "Trusted: the rpush list model (DESIGN §5/A.9) as the meaning of the documented placement semantics; override-list placement without .m.rule.master first, and self-anchored inserts are judged only for panic-freedom, atomicity and uniqueness; an insert whose `before` anchor is not below its `after` anchor must fail with the set unchanged.",
     "deterministic simulation (seeded schedule + fault injection: drop/dup/delay/retry/crash-restart) with reference-model oracle; tape minimisation and replay",
     "DESIGN.md §5, §7 C13")
 
@@ -41,16 +41,16 @@ fed("C01", "Every PDU text a Ruma node ingests (respelled by the transport: key 
 fed("C02", "Signing flows between servers and an identity server (1-3 signers in tape order, real and model signers mixed, cross-verification), tamper classes on signed objects (content / signature bit / key bit / key id / unsigned only / respelling / extra entity) judged against rsig in both directions, and snapshot comparison after every failing sign_json.")
 fed("C03", "Every PDU creation, countersigning and receipt in room versions 1-11 is judged against rsig+rredact+rsigners: hash_and_sign_event bytes, verify_event result class (All / Signatures / error) for clean, respelled, tampered-by-class, relay-redacted and reloaded-after-crash copies, required signers incl. v1-2 foreign event IDs and restricted-join countersignatures.")
 fed("C04", "Redaction at every place a node redacts (inside sign/verify/hash, on hash mismatch, relay-redact chains of 1-3 hops, entry point chosen by the tape) plus observer probes over every special event type with specified and unspecified keys, compared with the rredact table for versions 1-11 (obtained through RoomVersionId); entry-point agreement, idempotence, redacted_because. The (version,type,key) table coverage itself is workload sampling.")
-fed("C05", "Every server derives each event's ID independently on receipt, after restart and from relay-redacted copies; IDs, content hashes and reference hashes are compared with rsha/rb64/rredact; tamper classes decide which changes must move the hash; boundary-size events are sized with the reference encoder to 65535±{0,1,2} bytes and must be refused exactly above the limit.")
-fed("C06", "Every resolve call of a Ruma node is repeated with permuted state-set and auth-chain-set order under fresh per-map hash keys (getrandom seam), on cooperative threads with their own hash seeds interleaved at fetch_event granularity, with single/identical-set identity probes; every event's accept/reject verdict and state-before map are compared across all nodes however they learned the DAG (delivery order, partitions, restarts recomputing from disk). Oracle is equality, no reference model.")
+fed("C05", "Every server derives each event's ID independently on receipt, after restart and from relay-redacted copies; IDs, content hashes and reference hashes are compared with rsha/rb64/rredact; tamper classes decide which changes must move the hash; boundary-size events are sized with the reference encoder to 65535±{0,1,2} bytes and must be refused exactly above the limit - by hashing, signing and (inflated after signing) by verify_event; unsigned-only tampers incl. a redacted_because on an unredacted copy must not move the ID.")
+fed("C06", "Every resolve call of a Ruma node is repeated with permuted state-set and auth-chain-set order under fresh per-map hash keys (getrandom seam), on cooperative threads with their own hash seeds interleaved at fetch_event granularity, with single/identical-set identity probes, with an unrelated resolution in between (the twin of the room: same room ID and event IDs, users rotated; on this thread or first on a new thread), and with one event missing from the store (same outcome for every argument order, never a panic); every event's accept/reject verdict and state-before map are compared across all nodes however they learned the DAG (delivery order, partitions, restarts recomputing from disk). Oracle is equality, no reference model.")
 fed("C07", "Every resolve call a Ruma node makes while processing a federation history with partitions, delays, frozen/skewed clocks and Byzantine stale-auth events (plus tape-chosen subset resolutions) is compared with the literal rsr2 model; the exposed lexicographical_topological_sort is compared with a reference Kahn sort on arising auth sub-DAGs with tape-chosen tie-prone keys.")
-fed("C08", "Every auth_check a Ruma node performs on history-reached states, K Byzantine candidate events per probed state (with synthetic membership overrides widening the sender×target product), and every iterative-auth step inside resolution are compared accept/reject with the rauth model for room versions 1-11; evidence reports the (version, kind, verdict, rule) cell histogram. Samples the abstract product space; does not enumerate it.")
+fed("C08", "Every auth_check a Ruma node performs on history-reached states, K Byzantine candidate events per probed state (with synthetic membership and power-levels overrides widening the sender×target×threshold product), and every iterative-auth step inside resolution are compared accept/reject with the rauth model for room versions 1-11; evidence reports the (version, kind, verdict, rule) cell histogram. Samples the abstract product space; does not enumerate it.")
 fed("C09", "auth_types_for_event is compared with rsel as sets on every created or probed event (all memberships, third-party-invite and restricted-join contents, malformed contents); recorded state reads of auth_check must lie inside the selection; re-running auth_check after removing/replacing/adding state entries outside the selection must not change the verdict.")
-fed("C20", "On history-reached power-levels events (fields absent, string levels before v10, users around thresholds) each helper (ban/kick/unban/invite a given user, send message/state type, room notification, effective level) is compared with the real auth_check verdict on the minimal corresponding event from a joined actor (and the real push condition / state-res level for the last two); room versions 3-11.")
+fed("C20", "On history-reached power-levels events (fields absent, string levels before v10, users around thresholds) each helper (ban/kick/unban/invite a given user, change a given user's level, send message/state type, room notification, effective level) is compared with the real auth_check verdict on the minimal corresponding event from a joined actor (and the real push condition / state-res level for the last two); room versions 3-11.")
 
 chk("C17", "crashsim",
-    "Seeded deterministic simulation of long-lived worker processes fed fault-damaged wire data (byte- and structure-level mutations of valid seeds, 200-600 deliveries per worker in quick, 500-2000 in thorough) at 60+ entry points that consume remote-controlled data; observables are exactly those the property names: panic payload, abort/signal/exit (incl. stack exhaustion on an 8 MiB stack), hang (60 s watchdog, confirmed twice in isolation), and canary drift (a fixed battery of well-formed calls must keep its recorded outputs after every rejected input). No functional oracle, hence no reference model to get wrong. Sampling, not proof.",
-    "Trusted: the supervisor/worker harness; bounds: inputs <= ~70 KB, JSON nesting <= 128, HTML nesting <= 1000, 8 MiB stack, 60 s watchdog; state-res entry points reject cyclic explicit event-id graphs (not producible by a peer from room v3 on).",
+    "Seeded deterministic simulation of long-lived worker processes fed fault-damaged wire data (byte- and structure-level mutations of valid seeds, 200-600 deliveries per worker in quick, 500-2000 in thorough) at 130 entry points that consume remote-controlled data (identifiers, URIs, headers, base64, typed events and what an application does with them, push, signatures/redaction/keys, HTML, 66 endpoint conversions, state-res over damaged PDUs); observables are exactly those the property names: panic payload, abort/signal/exit (incl. stack exhaustion on an 8 MiB stack), hang (60 s watchdog, confirmed twice in isolation), canary drift (a fixed battery of well-formed calls must keep its recorded outputs after every rejected input), and history dependence (every other delivery repeated at once on a brand-new thread, six to ten deliveries per session repeated alone in a fresh bare process: same complete outcome). No functional oracle, hence no reference model to get wrong. Sampling, not proof.",
+    "Trusted: the supervisor/worker harness; bounds: inputs <= ~70 KB, JSON nesting <= 128, HTML nesting <= 1000, 8 MiB stack, 60 s watchdog; state-res entry points reject cyclic explicit event-id graphs (a server accepts an event only after its auth events; not producible by a peer from room v3 on); ruma crates built with default features plus canonical-json, api/client/server, html/matrix, ring-compat (unstable-* code is not compiled and not claimed).",
     "deterministic simulation with fault injection on wire data (seeded mutation sequences against long-lived processes; crash/abort/hang/poisoning detection; tape minimisation and replay)",
     "DESIGN.md §6, §7 C17")
 
